@@ -318,6 +318,7 @@ def case_C15(seed):
     # the backends differ by design in one respect (C12: the in-memory map lists a node as its own neighbour)
     sqlite_ll = seed % 4 == 1 and all(isinstance(k, int) for k in g_ll)
     tmpd = None
+    wiring_bad = []
     try:
         for g, tr, ll in ((g_ll, tr_ll, True), (g_xy, tr_xy, False)):
             if sqlite_ll:
@@ -332,6 +333,17 @@ def case_C15(seed):
             with contextlib.redirect_stdout(io.StringIO()):      # SqliteMap.edges_closeto prints its argument
                 r = mt.match(tr)
             res.append(U.canon(mt, r))
+            if ll:
+                # the matched position a state reports is the projection point the MAP's metric returns for that observation and
+                # edge, bit for bit (the matcher and its helper classes add no geometry, rounding or snapping of their own: in
+                # degrees a 1e-6 grid is 11 cm, which no comparison of probabilities within GPS tolerances can see)
+                for m_ in (mt.lattice_best or []):
+                    if m_.obs_ne == 0 and m_.edge_m.p2 is not None and m_.edge_m.pi is not None:
+                        o_ = tuple(tr[m_.obs][:2])
+                        ref_ = mp.distance_point_to_segment(o_, m_.edge_m.p1, m_.edge_m.p2)
+                        if tuple(m_.edge_m.pi[:2]) != tuple(ref_[1][:2]) or m_.edge_m.ti != ref_[2]:
+                            wiring_bad.append((m_.key, tuple(m_.edge_m.pi), m_.edge_m.ti, tuple(ref_[1]), ref_[2]))
+                            break
     finally:
         if tmpd:
             import shutil
@@ -339,6 +351,10 @@ def case_C15(seed):
     a, b = res
     viol = []
     knife = 0
+    if wiring_bad:
+        k_, pi_, ti_, rpi_, rti_ = wiring_bad[0]
+        viol.append(('C15:matched-position-is-not-the-projection-the-metric-returns', f"state {k_}: reported position / relative position {pi_} / {ti_}, "
+                     f"map.distance_point_to_segment gives {rpi_} / {rti_}", {'case': U.case_repr(case), 'origin': origin, 'metres_per_unit': s}))
     # log-probabilities: 1e-3 absolute (a relative 1e-3 on the probability itself) + 2e-3 relative + first-order propagation
     # of the distortion of the local projection itself: over a map of extent `span` a distance differs between the sphere and
     # the equirectangular plane by at most delta = span^2 tan|lat| / (2R) (east-west scale changes by tan(lat)*dlat; the
